@@ -72,3 +72,18 @@ def wellformed_message(draw) -> list:
 
 def line_of(msg: list) -> str:
     return ";".join(str(x) for x in msg[:5]) + ";" + msg[5] + "\n"
+
+
+def weighted(*pairs):
+    """Choose among strategies with explicit integer weights.
+
+    (st.one_of flattens nested one_of/mapped one_of strategies, so repeating a branch does not give it more weight.)
+    """
+    table = [idx for idx, (weight, _strategy) in enumerate(pairs) for _ in range(weight)]
+    strategies = [strategy for _weight, strategy in pairs]
+
+    @st.composite
+    def pick(draw):
+        return draw(strategies[draw(st.sampled_from(table))])
+
+    return pick()
